@@ -1,19 +1,19 @@
 from ..pdk_data import *
 
 # Individuate component types
-MosKey = Tuple[str, h.MosType]
+MosKey = Tuple[str, h.MosType, h.MosFamily, h.MosVth]
 BjtKey = Tuple[str, h.BipolarType]
 
 xtors: Dict[MosKey, h.ExternalModule] = {
-    ("PFET_3p3V", MosType.PMOS, MosFamily.CORE): xtor_module("pfet_03v3"),
-    ("NFET_3p3V", MosType.NMOS, MosFamily.CORE): xtor_module("nfet_03v3"),
-    ("NFET_6p0V", MosType.NMOS, MosFamily.IO): xtor_module("nfet_06v0"),
-    ("PFET_6p0V", MosType.PMOS, MosFamily.IO): xtor_module("pfet_06v0"),
-    ("NFET_3p3V_DSS", MosType.NMOS, MosFamily.NONE): xtor_module("nfet_03v3_dss"),
-    ("PFET_3p3V_DSS", MosType.PMOS, MosFamily.NONE): xtor_module("pfet_03v3_dss"),
-    ("NFET_6p0V_DSS", MosType.NMOS, MosFamily.NONE): xtor_module("nfet_06v0_dss"),
-    ("PFET_6p0V_DSS", MosType.PMOS, MosFamily.NONE): xtor_module("pfet_06v0_dss"),
-    ("NFET_6p0V_NAT", MosType.NMOS, MosFamily.NONE): xtor_module("nfet_06v0_nvt"),
+    ("PFET_3p3V", MosType.PMOS, MosFamily.CORE, MosVth.STD): xtor_module("pfet_03v3"),
+    ("NFET_3p3V", MosType.NMOS, MosFamily.CORE, MosVth.STD): xtor_module("nfet_03v3"),
+    ("NFET_6p0V", MosType.NMOS, MosFamily.IO, MosVth.STD): xtor_module("nfet_06v0"),
+    ("PFET_6p0V", MosType.PMOS, MosFamily.IO, MosVth.STD): xtor_module("pfet_06v0"),
+    ("NFET_3p3V_DSS", MosType.NMOS, MosFamily.NONE, MosVth.STD): xtor_module("nfet_03v3_dss"),
+    ("PFET_3p3V_DSS", MosType.PMOS, MosFamily.NONE, MosVth.STD): xtor_module("pfet_03v3_dss"),
+    ("NFET_6p0V_DSS", MosType.NMOS, MosFamily.NONE, MosVth.STD): xtor_module("nfet_06v0_dss"),
+    ("PFET_6p0V_DSS", MosType.PMOS, MosFamily.NONE, MosVth.STD): xtor_module("pfet_06v0_dss"),
+    ("NFET_6p0V_NAT", MosType.NMOS, MosFamily.NONE, MosVth.NATIVE): xtor_module("nfet_06v0_nvt"),
 }
 
 ress: Dict[str, h.ExternalModule] = {
